@@ -107,6 +107,9 @@ func c13Model(active, inactive time.Duration, maxRetries int, minExpiry time.Dur
 				return true, ns
 			case "num":
 				return out.Num == len(m.Flows), ns
+			case "recbad":
+				// refused, and nothing of it stays behind
+				return out.Err != "", ns
 			case "get":
 				f := m.Flows[in.Key]
 				if (f != nil) != out.Present {
@@ -228,6 +231,8 @@ func c13Model(active, inactive time.Duration, maxRetries int, minExpiry time.Dur
 				return fmt.Sprintf("get(%d)->present=%v end=%s", in.Key, out.Present, out.Snap["flowEndSeconds"])
 			case "num":
 				return fmt.Sprintf("num->%d", out.Num)
+			case "recbad":
+				return fmt.Sprintf("recbad(key=%d)->err=%v", in.Rec.Key, out.Err != "")
 			case "getall":
 				var ks []int
 				for _, c := range out.All {
@@ -245,7 +250,11 @@ func genC13(seed uint64, tier string) *plan.Plan {
 	pl := &plan.Plan{Cfg: map[string]int64{}}
 	nk := 2 + r.IntN(2)
 	nt := 2 + r.IntN(3)
-	pl.Cfg["keys"], pl.Cfg["tasks"] = int64(nk), int64(nt)
+	// one more 5-tuple than the tasks send valid records for: it only ever sees records that have to
+	// be refused (an element missing), so no flow may ever exist for it
+	pl.Cfg["keys"], pl.Cfg["tasks"] = int64(nk+1), int64(nt)
+	pl.Cfg[fmt.Sprintf("cat%d", nk)] = int64(catIntra)
+	pl.Cfg[fmt.Sprintf("v6%d", nk)] = int64(r.IntN(2))
 	// timeouts are not multiples of 7 ms and every clock advance is: no scan lands exactly on a deadline
 	activeMs := []int64{100, 1000, 5000}[r.IntN(3)]
 	inactiveMs := []int64{150, 3000, 9000}[r.IntN(3)]
@@ -322,8 +331,12 @@ func genC13(seed uint64, tier string) *plan.Plan {
 					N: []int64{int64(s.start), int64(end), int64(s.rates[0] * dt), int64(s.rates[1] * dt), int64(s.rates[2] * dt), int64(s.rates[3] * dt), val * 1000003 % 65521, val}})
 			case x < 14:
 				pl.Ops = append(pl.Ops, plan.Op{K: "scan", T: t, B: int64(r.IntN(2))})
-			case x < 16:
+			case x < 15:
 				pl.Ops = append(pl.Ops, plan.Op{K: "get", T: t, A: int64(r.IntN(nk))})
+			case x < 16:
+				val++
+				pl.Ops = append(pl.Ops, plan.Op{K: "recbad", T: t, A: int64(nk), B: nodeSingle, S: fmt.Sprintf("S%d", val), X: aggOmittable[r.IntN(len(aggOmittable))],
+					N: []int64{10, int64(20 + val), 100, 200, 300, 400, 5, 6}})
 			case x < 17:
 				// list query: no key, or a partial key
 				pl.Ops = append(pl.Ops, plan.Op{K: "getall", T: t, A: int64(r.IntN(nk+2) - 2)})
@@ -405,6 +418,18 @@ func runC13(pl *plan.Plan, out *plan.Outcome) {
 			}
 			env.Count("agg.records", 1)
 			record(t, c13Input{Kind: "rec", Rec: r, Now: now}, call, o)
+		case "recbad":
+			r := s.recOf(op)
+			if r.Key != len(s.keyCat)-1 || op.X == "" {
+				return // only ever for the 5-tuple that is reserved for it
+			}
+			err := s.ap.AggregateMsgByFlowKey(s.buildMessageN([]aggRec{r}, []bool{s.keyV6[r.Key]}, op.X))
+			o := c13Output{}
+			if err != nil {
+				o.Err = err.Error()
+			}
+			env.Count("fault.record_missing_element", 1)
+			record(t, c13Input{Kind: "recbad", Rec: r, Now: now}, call, o)
 		case "scan":
 			var calls []c13Call
 			reset := op.B == 1
